@@ -7,16 +7,18 @@ graph evaluation).
   edge ::= (pub pubPort sub a|t|l idx)
   ops:
     (compile seg assets (uid*))        -> (ok (symbol*)) | (error assembly|keyError|assertion|unexpected)
-    (run assets (symbol*))             -> (ok ((key val)*) (key*) (key*) agree)     vals, trace, sinks, memo==value
-    (eval seg assets)                  -> (ok ((uid val)*) none|(some val))
+    (run assets (symbol*))             -> (ok ((key val)*) (key*) (key*) agree) | cyclic    vals, trace, sinks, memo==value
+    (eval seg assets)                  -> (ok ((uid val)*) none|(some val)) | cyclic
     (dfs seg)                          -> (ok (uid*))
     (wf seg assets ((uid rank)*))      -> (ok wf assetsOK)
-    (all seg assets (uid*) ((uid rank)*)) -> (all <compile> <run|skip> <eval> <dfs> <wf>)
+    (all seg assets (uid*) ((uid rank)*)) -> (all <compile> <run|skip> <eval> <dfs> <wf> <spec>)
+       <spec> ::= (describes linked)  compiled table == specTable up to order (false when compile fails); linked
 -/
 import ForML.Model.Sexp
 import ForML.Model.SymbolsSexp
 import ForML.Model.Compile
 import ForML.Model.GraphEval
+import ForML.Model.CompileSpec
 open ForML ForML.Flow
 
 def bool? : Sexp → Option Bool
@@ -58,7 +60,32 @@ def compileOut (g : Segment) (A : Option Assets) (order : List Uid) : Sexp :=
   | .ok t => .list [.atom "ok", Table.toSexp t]
   | .error e => .list [.atom "error", .atom (cerrName e)]
 
+/-- keys resolvable in one more round: all arguments already resolved (or not in the table at all) -/
+def resolveStep (t : Table) (done : List Key) : List Key :=
+  t.foldl (fun d s =>
+    if d.contains s.id then d
+    else if s.args.all (fun a => d.contains a || !(t.any (fun s' => s'.id == a))) then d ++ [s.id] else d) done
+
+/-- the table has no dependency cycle (driver-side guard only: the interpreter is exponential on cyclic tables) -/
+def acyclicTable (t : Table) : Bool :=
+  let done := (List.range (t.length + 1)).foldl (fun d _ => resolveStep t d) []
+  t.all (fun s => done.contains s.id)
+
+/-- same guard for direct graph evaluation: data edges and the state edges trainer -> other members of its group -/
+def acyclicGraph (g : Segment) : Bool :=
+  let deps (w : Worker) : List Uid :=
+    (g.edges.filter (fun e => e.sub == w.uid)).map (·.pub) ++
+      (if g.trained w.uid then [] else
+        (g.workers.filter (fun o => o.gid == w.gid && o.uid != w.uid && g.trained o.uid)).map (·.uid))
+  let step (done : List Uid) : List Uid :=
+    g.workers.foldl (fun d w =>
+      if d.contains w.uid then d
+      else if (deps w).all (fun p => d.contains p || !(g.uids.contains p)) then d ++ [w.uid] else d) done
+  let done := (List.range (g.workers.length + 1)).foldl (fun d _ => step d) []
+  g.workers.all (fun w => done.contains w.uid)
+
 def runOut (A : Option Assets) (t : Table) : Sexp :=
+  if !acyclicTable t then .atom "cyclic" else
   let m := run A t
   let agree := t.all (fun s =>
     match m.get s.id with
@@ -72,6 +99,7 @@ def runOut (A : Option Assets) (t : Table) : Sexp :=
   | _ => .atom "internal"
 
 def evalOut (g : Segment) (A : Option Assets) : Sexp :=
+  if !acyclicGraph g then .atom "cyclic" else
   let r := g.evalGraph A
   .list [.atom "ok", .list (r.values.map fun (u, v) => .list [.ofNat u, v.toSexp]),
          Sexp.ofOption Val.toSexp r.commit]
@@ -109,7 +137,11 @@ def stepC01 : Sexp → Sexp
       let rn := match compile g A o with
         | .ok t => runOut A t
         | .error _ => .atom "skip"
-      .list [.atom "all", c, rn, evalOut g A, dfsOut g, wfOut g A r]
+      let desc := match compile g A o with
+        | .ok t => g.describes A t
+        | .error _ => false
+      .list [.atom "all", c, rn, evalOut g A, dfsOut g, wfOut g A r,
+             .list [Sexp.ofBool desc, Sexp.ofBool (g.linked A)]]
     | _, _, _, _ => .atom "bad-op"
   | _ => .atom "bad-op"
 
